@@ -10,7 +10,7 @@ rm -rf "$OUT"; mkdir -p "$OUT"
 cd "$OUT/coq"
 echo "== forbidden words"; grep -rnE '\b(Admitted|admit|Axiom|Parameter|Conjecture|Unset Guard|bypass_check|Admit Obligations)\b' --include=*.v . || echo "none"
 coq_makefile -f _CoqProject -o Makefile > /dev/null
-echo "== clean build"; /usr/bin/time -f "build wall %e s" timeout 3000 make -j16 > build.log 2>&1 || { tail -30 build.log; echo BUILD FAILED; exit 1; }
+echo "== clean build"; /usr/bin/time -f "build wall %e s" timeout 3000 make -j16 COQC="timeout 900 coqc" > build.log 2>&1 || { tail -30 build.log; echo BUILD FAILED; exit 1; }
 grep -c "Closed under the global context" build.log | sed 's/^/closed-under-global-context count: /'
 echo "== axioms printed by Print Assumptions (distinct)"; grep -E "^[A-Za-z_.0-9]+ *:" build.log | grep -vE "^(Fetching|File|Warning)" | awk '{print $1}' | sort | uniq -c | sort -rn | head -60
 echo "== coqchk"; MODS=$(find . -name '*.vo' | sed 's|^\./||; s|\.vo$||; s|/|.|g; s|^|PV.|' | tr '\n' ' ')
